@@ -1,13 +1,172 @@
-(* MemBuf/Props.v — theorems of property C08 *)
-From Verif Require Import MemBuf.Model.
+(* MemBuf/Props.v — theorems of property C08 (ART ≡ RBT ≡ reference model).
+   L0 = Staged.v (reference: stack of staging levels over an ordered map),
+   L1 = VLog.v (key table + append-only value log with old links: the mechanism shared by ART and RBT). *)
+From Verif Require Import MemBuf.Model MemBuf.ProofsKMap MemBuf.ProofsLog MemBuf.ProofsSim MemBuf.ProofsObs
+  MemBuf.ProofsSet MemBuf.ProofsRevert MemBuf.ProofsStep MemBuf.ProofsProps.
 
-(* full-strength statement: every sequence gives the same results on L1 (the code) and on L0 *)
-Definition C08_revert_checkpoint_stmt : Prop :=
+(* 1. Refinement.  Over ALL operation sequences (mutators and observers, valid and invalid handles /
+   tokens) in which no step reverts to a checkpoint below which a value was overwritten in place
+   afterwards (ghost predicate no_hazard of the L1 run; sequences without Checkpoint trivially
+   qualify), every result of L1 equals the result of L0 — values, tombstones, flags, Len/Size/Dirty,
+   iteration, snapshot reads, InspectStage, SelectValueHistory, handles returned by Staging, tokens
+   returned by Checkpoint, errors — and the final states are related by the abstraction Sim
+   (journals = the log cut at the stage positions, kf = the non-deleted table entries,
+   Len/Size counters = the computed ones). *)
+Theorem C08_L1_refines_L0 :
+  forall ops : list op, no_hazard init1 ops = true ->
+    run1 init1 ops = run0 init0 ops /\ Sim (exec1 init1 ops) (exec0 init0 ops).
+Proof. intros ops H. exact (run_refines ops init1 init0 sim_init H). Qed.
+Print Assumptions C08_L1_refines_L0.
+
+(* one step, from any related pair of states *)
+Theorem C08_step_commutes :
+  forall s1 s0 o, Sim s1 s0 -> hazard1 s1 o = false ->
+    Sim (fst (step1 s1 o)) (fst (step0 s0 o)) /\ snd (step1 s1 o) = snd (step0 s0 o).
+Proof. exact step_sim. Qed.
+Print Assumptions C08_step_commutes.
+
+(* 2. The same statement without the ghost hypothesis is what a user expects of RevertToCheckpoint.
+   The code (and therefore L1) refutes it: KNOWN FINDING F03b. *)
+Definition C08_revert_checkpoint : Prop :=
   forall ops : list op, run1 init1 ops = run0 init0 ops.
 
 Definition f03b_witness : list op :=
   [OSet [120] [97; 97] []; OCheckpoint; OSet [120] [98; 98] []; ORevert 0%nat; OGet [120]].
 
-Theorem C08_revert_checkpoint_refuted : ~ C08_revert_checkpoint_stmt.
+Theorem C08_revert_checkpoint_refuted : ~ C08_revert_checkpoint.
 Proof. intro H. specialize (H f03b_witness). vm_compute in H. discriminate H. Qed.
 Print Assumptions C08_revert_checkpoint_refuted.
+
+(* the witness is exactly a revert to a tainted checkpoint; inside a staging level too *)
+Example f03b_witness_is_hazard : no_hazard init1 f03b_witness = false.
+Proof. vm_compute. reflexivity. Qed.
+Example f03b_in_stage :
+  run1 init1 (OStaging :: f03b_witness) <> run0 init0 (OStaging :: f03b_witness).
+Proof. vm_compute. discriminate. Qed.
+
+(* 3. Snapshot reads ignore staged data: while at least one stage stays open no operation changes the
+   base level, hence no snapshot Get; the snapshot iteration returns exactly the base level's pairs. *)
+Theorem C08_snapshot_ignores_staged :
+  forall s o, (0 < depth0 s)%nat -> (0 < depth0 (fst (step0 s o)))%nat ->
+    base0 (fst (step0 s o)) = base0 s /\
+    (forall k, obs0 (OSnapGet k) (fst (step0 s o)) = obs0 (OSnapGet k) s).
+Proof.
+  intros s o H H'. pose proof (step0_frozen 0 s o H H') as F. unfold below in F. assert (F2 : base0 (fst (step0 s o)) = base0 s) by (inversion F; reflexivity).
+  split; [exact F2|]. intros k. cbn [obs0]. rewrite F2. reflexivity.
+Qed.
+Print Assumptions C08_snapshot_ignores_staged.
+
+Theorem C08_snapshot_iter_is_base :
+  forall ops, no_hazard init1 ops = true ->
+  forall lo hi k v,
+    let s0 := exec0 init0 ops in
+    In (k, v) (iter_list (base0 s0) lo hi (kf0 s0)) <-> (kfind k (base0 s0) = Some v /\ in_bounds lo hi k = true).
+Proof.
+  intros ops H lo hi k v s0. destruct (C08_L1_refines_L0 ops H) as [_ HS].
+  exact (snapshot_iter_is_base _ _ lo hi k v HS).
+Qed.
+Print Assumptions C08_snapshot_iter_is_base.
+
+(* 4. Bounded iteration, both directions, over ALL sequences (no ghost hypothesis): the forward result
+   is strictly ascending, inside [lo,hi) (empty bound = unbounded), and contains exactly the table's
+   keys that have a value; the reverse result is its mirror image. *)
+Theorem C08_iter_bounds :
+  forall ops rev lo hi,
+    let s := exec1 init1 ops in
+    let fwd := iter1 (cur_val s) lo hi (keys1 s) in
+    obs1 (OIter rev lo hi) s = RKVs (if rev then List.rev fwd else fwd) /\
+    ksorted fwd /\
+    (forall k v, In (k, v) fwd <->
+       exists ent, In (k, ent) (keys1 s) /\ cur_val s ent = Some v /\ in_bounds lo hi k = true).
+Proof.
+  intros ops rev lo hi s fwd. split; [reflexivity|]. split.
+  - unfold fwd. rewrite iter1_gen. apply iter_gen_sorted. apply exec1_sorted. exact I.
+  - intros k v. unfold fwd. rewrite iter1_gen. exact (iter_gen_in (fun _ e => cur_val s e) lo hi (keys1 s) k v).
+Qed.
+Print Assumptions C08_iter_bounds.
+
+Lemma in_bounds_spec lo hi k :
+  in_bounds lo hi k = true <-> (lo = [] \/ lex_cmp lo k <> Gt) /\ (hi = [] \/ lex_cmp k hi = Lt).
+Proof.
+  unfold in_bounds, lex_leb, lex_ltb. rewrite andb_true_iff. split; intros [A B]; split.
+  - destruct lo; [left; reflexivity|right]. destruct (lex_cmp (n :: lo) k); congruence.
+  - destruct hi; [left; reflexivity|right]. destruct (lex_cmp k (n :: hi)); congruence.
+  - destruct lo; [reflexivity|]. destruct A as [A|A]; [discriminate|]. destruct (lex_cmp (n :: lo) k); congruence.
+  - destruct hi; [reflexivity|]. destruct B as [B|B]; [discriminate|]. rewrite B. reflexivity.
+Qed.
+
+(* 5. Limits: rejected exactly at the limit; a key or an entry that is too large changes nothing (not even
+   the write sequence number); a write that makes the buffer too large IS applied and answered with
+   ErrTxnTooLarge. *)
+Theorem C08_limits :
+  forall s k v fops,
+    ((max_key_len < blen k)%N -> set1 k v fops s = (s, RErr EKeyTooLarge) /\ updflags1 k fops s = (s, RUnit)) /\
+    ((blen k <= max_key_len)%N -> (elimit1 s < blen k + blen v)%N -> set1 k v fops s = (s, RErr EEntryTooLarge)) /\
+    ((blen k <= max_key_len)%N -> (blen k + blen v <= elimit1 s)%N ->
+       let s2 := setvalue1 k v (touch1 k (apply_flag_ops (flags_of1 k s) (DelNeedConstraintCheckInPrewrite :: fops)) s) in
+       set1 k v fops s = (s2, if (blimit1 s <? size1 s2)%N then RErr ETxnTooLarge else RUnit) /\
+       wseq1 s2 = (wseq1 s + 1)%N).
+Proof.
+  intros s k v fops. unfold set1, updflags1. repeat split.
+  - apply N.ltb_lt in H. rewrite H. reflexivity.
+  - apply N.ltb_lt in H. rewrite H. reflexivity.
+  - intros H1 H2. apply N.ltb_ge in H1. apply N.ltb_lt in H2. rewrite H1, H2. reflexivity.
+  - apply N.ltb_ge in H. apply N.ltb_ge in H0. rewrite H, H0. rewrite setvalue1_blimit, touch1_blimit. reflexivity.
+  - unfold setvalue1. set (t := touch1 _ _ s). change (wseq1 s + 1)%N with (wseq1 t).
+    destruct (kfind k (keys1 t)); [|reflexivity]. destruct (k_head k0); [|reflexivity]. destruct (_ && _); reflexivity.
+Qed.
+Print Assumptions C08_limits.
+
+(* 6. Stack discipline (on the reference model; carried to L1 by C08_L1_refines_L0).
+   Cleanup: whatever happens inside a staging level — including nested levels, checkpoints and reverts —
+   as long as the level stays open, cleaning it up gives back the journals (hence every value, snapshot
+   value and value history) of the moment Staging was called.  Flags are deliberately not restored (undo0). *)
+Theorem C08_cleanup_restores :
+  forall s ops,
+    let s1 := fst (staging0 s) in
+    stays_above (depth0 s) s1 ops = true ->
+    depth0 (exec0 s1 ops) = S (depth0 s) ->
+    let s3 := fst (cleanup0 (S (depth0 s)) (exec0 s1 ops)) in
+    stages0 s3 = stages0 s /\ base0 s3 = base0 s /\ all0 s3 = all0 s /\
+    (forall k p, obs0 (OGet k) s3 = obs0 (OGet k) s /\ obs0 (OSnapGet k) s3 = obs0 (OSnapGet k) s /\
+                 (kfind k (all0 s) <> None -> obs0 (OHist k p) s3 = obs0 (OHist k p) s)).
+Proof.
+  intros s ops s1 Hs Hd s3. destruct (cleanup_restores s ops Hs Hd) as (E1 & E2 & E3). fold s1 in E1, E2, E3. fold s3 in E1, E2, E3.
+  repeat split; try assumption; cbn [obs0]; rewrite ?E3, ?E2; reflexivity.
+Qed.
+Print Assumptions C08_cleanup_restores.
+
+(* Release: merging the top level into the one below changes no value, flag, count, size, iteration or history *)
+Theorem C08_release_keeps :
+  forall s h o,
+    match o with
+    | OGet _ | OGetFlags _ | OLen | OSize | OIter _ _ _ | OIterFlags _ _ | OHist _ _ =>
+        obs0 o (fst (release0 h s)) = obs0 o s
+    | _ => True
+    end.
+Proof. intros s h o. destruct (release0_keeps h s) as [Ea Ek]. apply obs0_values_ext; assumption. Qed.
+Print Assumptions C08_release_keeps.
+
+(* ---- non-vacuity ---- *)
+(* a sequence with stages, checkpoints, a (clean) revert, tombstones, flags: satisfies no_hazard *)
+Definition nv_ops : list op :=
+  [OSet [1] [97; 97] [SetKeyLocked]; OStaging; OCheckpoint; OSet [1] [98; 98; 98] []; OSet [2] [] [];
+   OFlags [3] [SetPresumeKeyNotExists]; OCheckpoint; OSet [2] [99] []; ORevert 1%nat; OGet [2]; ORevert 0%nat;
+   OGet [1]; OSnapGet [1]; OIterFlags [] []; OCleanup 1%nat; OLen; OSize].
+Example nv_no_hazard : no_hazard init1 nv_ops = true.
+Proof. vm_compute. reflexivity. Qed.
+Example nv_outputs :
+  run0 init0 nv_ops =
+    [RUnit; RNat 1; RNat 0; RUnit; RUnit; RUnit; RNat 1; RUnit; RUnit; RVal (Some []); RUnit;
+     RVal (Some [97; 97]); RVal (Some [97; 97]); RKFVs [([1], 2%N, Some [97; 97]); ([3], 17%N, None)];
+     RUnit; RNum 2; RNum 4].
+Proof. vm_compute. reflexivity. Qed.
+(* the limits bite: *)
+Example nv_limits :
+  run1 init1 [OSetLimits 3 4; OSet [1] [7; 7; 7] []; OSet [1] [7; 7] []; OSet [2] [8; 8] []; OLen; OSize] =
+    [RUnit; RErr EEntryTooLarge; RUnit; RErr ETxnTooLarge; RNum 2; RNum 6].
+Proof. vm_compute. reflexivity. Qed.
+(* cleanup_restores has instances *)
+Example nv_cleanup :
+  stays_above 0 (fst (staging0 init0)) [OSet [1] [5] []; OStaging; OSet [1] [6] []; ORelease 2%nat] = true.
+Proof. vm_compute. reflexivity. Qed.
